@@ -31,11 +31,14 @@ EXPECTED_PROBES = ['clock_jump', 'interval_schedule_changed_value',
                    'stats_changed_on_tick', 'precond_changed_on_tick']
 
 
+GRID = [(s, p, S) for s in (1, 2, 3, 5, 7) for p in (1, 2, 3, 4, 6, 10)
+        for S in (0, 1, 2, 5, 6)]
+
+
 def _grid(rng, tier, idx):
-  s = pick(rng, [1, 2, 3, 5, 7])
-  p = pick(rng, [1, 2, 3, 4, 6, 10])
-  S = pick(rng, [0, 1, 2, 5, 6])
-  return s, p, S
+  """The (s, p, S) grid is walked by run index (a fixed permutation), so N
+  runs cover min(N, 150) distinct cells; everything else is drawn."""
+  return GRID[(idx * 37) % len(GRID)]
 
 
 def generate(seed, idx, tier):
